@@ -181,6 +181,13 @@ func RunFlow(f *ssa.Function, spec FlowSpec) *Flow {
 					}
 				case ssa.Value:
 					if call, isCall := x.(*ssa.Call); isCall {
+						if bi, ok := call.Call.Value.(*ssa.Builtin); ok && bi.Name() == "copy" && len(call.Call.Args) == 2 {
+							// copy(dst, src): a local destination receives the source's label
+							if al, ok := AddrRoot(sliceBase(call.Call.Args[0])).(*ssa.Alloc); ok {
+								k := cellKey{al, ""}
+								st[k] = effective(st, k) | fl.get(call.Call.Args[1])
+							}
+						}
 						// a callee handed the address of a local may fill it from its
 						// other arguments (weak update of the whole local)
 						var all Label
@@ -239,6 +246,13 @@ func RunFlow(f *ssa.Function, spec FlowSpec) *Flow {
 		}
 	}
 	return fl
+}
+
+func sliceBase(v ssa.Value) ssa.Value {
+	if sl, ok := v.(*ssa.Slice); ok {
+		return sl.X
+	}
+	return v
 }
 
 // nilTest recognises `*cell == nil` / `*cell != nil` on a local cell and
